@@ -372,7 +372,7 @@ impl EventGen for ConfigElement {
                 }
             }
         }
-        context.set_config(new_config);
+        context.update_config(new_config, self.0.has_attr("seed"));
         Ok((OutputList::new(), None))
     }
 }
